@@ -231,7 +231,7 @@ def correspondence(ctx):
                 "(flat node, worker) pairs (complete and partial) and compared with the eager graph and with the "
                 "resolver's lazy graph for the same expansions; non-trivial = more than one worker and more than 3 nodes")
     try:
-        n_suites, per_suite, n_orders = (90, 2, 3) if thorough else (9, 1, 2)
+        n_suites, per_suite, n_orders = (90, 2, 3) if thorough else (14, 1, 2)
         budget = 1400 if thorough else 150
         cases = c06.gen_cases(rng, n_suites, per_suite, "large" if thorough else "small", lazy_share=0.0, max_workers=3)
         for c in cases:
